@@ -186,6 +186,7 @@ type multiStreamListener struct {
 	ln          StreamListener
 	count       uint32
 	acceptCh    chan acceptResponse
+	doneCh      chan struct{}
 	onCloseFunc OnCloseFunc
 }
 
@@ -212,19 +213,27 @@ func (m *multiStreamListener) Acquire() (StreamListener, error) {
 		}
 		m.ln = &TCPListener{ln}
 		m.acceptCh = make(chan acceptResponse)
-		// The goroutine owns the listener and channel it was started with, so that
+		m.doneCh = make(chan struct{})
+		// The goroutine owns the listener and channels it was started with, so that
 		// it is unaffected if the shared listener is acquired again after all of
 		// its users have closed it.
-		go func(ln StreamListener, acceptCh chan acceptResponse) {
+		go func(ln StreamListener, acceptCh chan acceptResponse, doneCh chan struct{}) {
 			for {
 				conn, err := ln.AcceptStream()
 				if errors.Is(err, net.ErrClosed) {
 					close(acceptCh)
 					return
 				}
-				acceptCh <- acceptResponse{conn, err}
+				select {
+				case acceptCh <- acceptResponse{conn, err}:
+				case <-doneCh:
+					// All users are gone: nobody can take this connection anymore.
+					if conn != nil {
+						conn.Close()
+					}
+				}
 			}
-		}(m.ln, m.acceptCh)
+		}(m.ln, m.acceptCh, m.doneCh)
 	}
 
 	m.count++
@@ -241,6 +250,7 @@ func (m *multiStreamListener) Acquire() (StreamListener, error) {
 			}
 			m.ln.Close()
 			m.ln = nil
+			close(m.doneCh)
 			// Release the lock before calling back: the callback may need a lock
 			// that another goroutine holds while it waits to acquire this listener.
 			onCloseFunc := m.onCloseFunc
